@@ -43,8 +43,12 @@ Further readings made here (each counted as None where it matters):
   R7  population-type conditions: a term inf-inf is None (IEEE nan versus R3).
   R8  SolutionImprovement with a 2-D trial population: True if every row
       satisfies the inequality, False if none does, None otherwise.
-  R9  CandidateRelativeTolerance with fewer than two candidates is vacuously
-      satisfied (there is no i >= 1).
+  R9  CandidateRelativeTolerance with fewer than two candidates is outside the
+      documented domain (the source notes "this termination expects nPop > 1" and
+      the implementation answers with a warning text): None, nothing is judged.
+  R10 NormalizedCostTarget with fval=None and generations None/0 names neither a
+      target nor a look-back window; the docstring gives such a condition no
+      meaning (the implementation treats it as always satisfied): None.
 """
 from fractions import Fraction
 import math
@@ -275,6 +279,8 @@ def normalized_cost_target(cost, fval=None, tolerance=1e-6, generations=30):
         return False
     w = window(cost, generations)
     if fval is None:
+        if not generations:
+            return None       # R10: neither a target nor a window was given
         if w is None:
             return False
         a, b = w
@@ -329,7 +335,7 @@ def crt_cost(cost, ftol):
 def candidate_relative_tolerance(params, cost, xtol=1e-4, ftol=1e-4):
     "abs(xi-x0) <= xtol & abs(fi-f0) <= ftol   for every candidate i >= 1"
     if len(cost) < 2:
-        return True                             # R9
+        return None                             # R9
     return _all3([crt_params(params, xtol), crt_cost(cost, ftol)])
 
 
